@@ -1,12 +1,109 @@
 import GrinVerif.Drv.Common
-/-! Driver glue for the `chain` domain (line protocol handler). -/
+import GrinVerif.Model.Chain
+/-! Driver glue for the `chain` domain: block tree definitions shared by all subject chains,
+one model `Node` per subject. -/
 namespace GV.Drv.ChainD
-open GV GV.Drv
+open GV GV.Drv GV.Chain
 
 structure St where
-  dummy : Unit := ()
+  outs : List OutDef := []
+  blks : List Blk := []
+  nodes : List (String × Node) := []
 
-def handle (st : St) (_args : List String) (_impl : String) : St × Verdict :=
-  (st, .unknown)
+def stripPfx (s : String) (n : Nat) : String := (s.drop n).toString
+
+/-- `o12` / `b3` → 12 / 3 -/
+def idOf (s : String) : Option Nat := (stripPfx s 1).toNat?
+
+def kv (args : List String) (k : String) : Option String :=
+  (args.find? (·.startsWith (k ++ "="))).map (fun a => stripPfx a (k.length + 1))
+
+def listItems (s : String) : List String :=
+  let inner := (s.drop 1).dropEnd 1 |>.toString
+  if inner.isEmpty then [] else inner.splitOn ","
+
+def parseKer (s : String) : Option Ker :=
+  match s.splitOn ":" with
+  | ["cb"] => some .cb
+  | ["p", f] => f.toNat?.map .plain
+  | ["hl", f, l] => do let f ← f.toNat?; let l ← l.toNat?; pure (.hl f l)
+  | ["nrd", f, r, e] => do let f ← f.toNat?; let r ← r.toNat?; pure (.nrd f r e)
+  | _ => none
+
+def parseOutRef (s : String) : Option (Nat × Bool) :=
+  match s.splitOn ":" with
+  | [o, "cb"] => (idOf o).map (·, true)
+  | [o, "pl"] => (idOf o).map (·, false)
+  | _ => none
+
+def parseBlk (id : String) (args : List String) : Option Blk := do
+  let bid ← idOf id
+  let parS ← kv args "parent"
+  let parent := if parS == "-" then none else idOf parS
+  let h ← (← kv args "h").toNat?
+  let work ← (← kv args "work").toNat?
+  let ver ← (← kv args "ver").toNat?
+  let ts ← (← kv args "ts").toNat?
+  let ins ← (listItems (← kv args "ins")).mapM idOf
+  let outs ← (listItems (← kv args "outs")).mapM parseOutRef
+  let kers ← (listItems (← kv args "kers")).mapM parseKer
+  let tags := listItems (← kv args "tags")
+  pure { id := bid, parent, h, work, ver, ts, ins, outs, kers, tags }
+
+def getNode (st : St) (s : String) : Option Node :=
+  (st.nodes.find? (·.1 == s)).map fun x => { x.2 with outs := st.outs, blks := st.blks }
+
+def setNode (st : St) (s : String) (n : Node) : St :=
+  { st with nodes := (s, { n with outs := [], blks := [] }) :: st.nodes.filter (·.1 != s) }
+
+def sortNat (l : List Nat) : List Nat := (l.toArray.qsort (· < ·)).toList
+
+def showObs (n : Node) (p : Params) : String :=
+  let u := sortNat (n.reportedUtxo p)
+  s!"head=b{n.head} hhead=b{n.hhead} utxo=[{",".intercalate (u.map fun o => s!"o{o}")}]"
+
+/-- accept/reject is fixed by the property (spec); the error class is an internal observable -/
+def cmpDeliver (model impl : String) : Verdict :=
+  if model = impl then .ok
+  else if model.startsWith "err:" ∧ impl.startsWith "err:" then .diff model
+  else .fail model
+
+def handle (st : St) (args : List String) (impl : String) : St × Verdict :=
+  let p : Params := {}
+  match args with
+  | "reset" :: _ => ({}, .ok)
+  | "out" :: o :: rest =>
+    match idOf o, kv rest "cb", (kv rest "v").bind String.toNat? with
+    | some id, some cb, some v => ({ st with outs := st.outs ++ [{ id, cb := cb == "1", v }] }, .ok)
+    | _, _, _ => (st, .unknown)
+  | "blk" :: b :: rest =>
+    match parseBlk b rest with
+    | some blk => ({ st with blks := st.blks ++ [blk] }, .ok)
+    | none => (st, .unknown)
+  | ["new", s] => (setNode st s {}, .ok)
+  | ["deliver", s, b] =>
+    match getNode st s, (idOf b).bind (fun i => st.blks.find? (·.id == i)) with
+    | some n, some blk =>
+      let (n', r) := deliverBlock p n blk
+      (setNode st s n', cmpDeliver r.toString impl)
+    | _, _ => (st, .unknown)
+  | ["hdr", s, b] =>
+    match getNode st s, (idOf b).bind (fun i => st.blks.find? (·.id == i)) with
+    | some n, some blk =>
+      let (n', r) := deliverHeader p n blk
+      (setNode st s n', cmpDeliver r impl)
+    | _, _ => (st, .unknown)
+  | ["obs", s] =>
+    match getNode st s with
+    | some n => (st, cmpSpec (showObs n p) impl)
+    | none => (st, .unknown)
+  | ["reopen", s] =>
+    -- a restart forgets the in-memory orphan pool; everything else is durable
+    match getNode st s with
+    | some n => (setNode st s { n with orphans := [] }, cmpSpec "ok" impl)
+    | none => (st, .unknown)
+  | ["compact", _] => (st, cmpSpec "ok" impl)
+  | ["validate", _] => (st, cmpSpec "ok" impl)
+  | _ => (st, .unknown)
 
 end GV.Drv.ChainD
